@@ -17,7 +17,10 @@ def strategy():
     # several frames and logical files around the payloads (each record must still appear exactly once, under its object)
     frames = Profile(vrl=[64, 128, 8192], max_frames=3, max_channels=2, max_rows=3, max_width=2, noformat=3,
                      nf_payload_max=300, index_types=False, units=False, name_max=8, max_lfs=2, lf_distinct_sets=True)
-    return st.one_of(file_specs(small), file_specs(small), file_specs(large), file_specs(frames))
+    # ... and NO-FORMAT objects spread over differently named NO-FORMAT sets, their records added in alternation
+    sets = Profile(vrl=[128, 8192], max_frames=2, max_channels=2, max_rows=3, max_width=2, noformat=3, nf_payload_max=100,
+                   index_types=False, units=False, name_max=8, named_sets=True, set_names_per_type_differ=True)
+    return st.one_of(file_specs(small), file_specs(small), file_specs(large), file_specs(frames), file_specs(sets))
 
 
 class C16(Property):
